@@ -306,7 +306,45 @@ def rule_store(R):
     _r(R)
 
 
+def rule_drained(R):
+    """a transport that accepts a packet only in part must not change what is sent: the drive loop reports "nothing more
+    to do" (Idle / Advanced) only when the outbound queues have no step left -- decided by asking the queues, not by what
+    the last step happened to report.  A loop that stops after a partial write leaves the packet's tail unsent until some
+    later call, and a direct write in between lands inside it."""
+    f = R.f
+    cm = roles.conn_methods(f)
+    b, code = cm["drive_packet"]
+    R.touch(code)
+    edges = []
+    for bb in code.switches:
+        if bb not in code.reachable:
+            continue
+        si = code.switch_info(bb)
+        sj = peel(si["subject"])
+        neg = False
+        if sj[0] == "un" and sj[1] == "Not":
+            sj, neg = peel(sj[2]), True
+        if not any(is_call(x, "next_step") for x in walk(sj)):
+            continue
+        if is_call(sj, "is_none") and si["edges"].get(not neg) is not None:
+            edges.append((bb, si["edges"][not neg]))
+        elif is_call(sj, "is_some") and si["edges"].get(neg) is not None:
+            edges.append((bb, si["edges"][neg]))
+        elif si["enum"] == "core::option::Option" and si["edges"].get("None") is not None:
+            edges.append((bb, si["edges"]["None"]))
+    outs = []
+    for bb, j, s_ in code.assigns():
+        rv = s_["rv"]
+        if bb in code.reachable and "agg" in rv and (rv["agg"].get("adt") or "").endswith("Progress") and rv["agg"].get("variant") in ("Idle", "Advanced"):
+            outs.append(bb)
+    ok = bool(edges) and bool(outs) and code.must_pass([0], outs, via_edges=edges)[0]
+    R.ob("write/loop-until-drained", ok,
+         "Connection::drive_packet reports Idle / Advanced only on the edge where Outbound::next_step() is None "
+         "(%d such tests, %d reports)" % (len(edges), len(outs)), where=b.span)
+
+
 def run(R):
+    R.rule("drained", rule_drained)
     R.rule("store", rule_store)
     R.rule("replay", rule_replay)
     R.rule("interleave", rule_interleave)
